@@ -246,7 +246,9 @@ class Paths:
                     lit = ("any",)
                 else:
                     lit = ("not",) + tuple(v for v, _ in t["targets"])
-                ev.append(("cond", d, lit, self._discr_ty(fn, path, k, t)))
+                dpl = t["d"].get("move") or t["d"].get("copy")
+                dty = _place_ty(fn.body, dpl) if dpl is not None else ("bool" if isinstance(t["d"].get("const", {}).get("v"), bool) else None)
+                ev.append(("cond", d, lit, self._discr_ty(fn, path, k, t), dty == "bool"))
         last = len(path) - 1
         tl = blocks[path[last]]["t"]
         ev.append(("ret", res(po.return_origin(), last, po.end(last)) if tl and tl["k"] == "return" else UNIT))
@@ -312,7 +314,8 @@ class Paths:
 
     # conditions -----------------------------------------------------------------------------------------
     def _cond(self, st, e):
-        _, d, lit, dty = e
+        _, d, lit, dty = e[:4]
+        is_bool = e[4] if len(e) > 4 else True
         d = self._val(st, d)
         if d[0] == "discr":
             x = d[1]
@@ -333,7 +336,18 @@ class Paths:
                 return []
             st.facts.append(("variant", x, tuple(sorted(sel))))
             return [st]
-        tv = _truth(lit)
+        tv = _truth(lit) if is_bool else None
+        if not is_bool and d[0] != "discr" and not (d[0] == "const" and isinstance(d[1], bool)):
+            # integer / char switch: value == v, value != v (single other target), or a set of values
+            if d[0] == "const" and isinstance(d[1], str) and len(d[1]) == 1:
+                d = ("const", ord(d[1]))
+            if not (d[0] == "const" and isinstance(d[1], int)):
+                if len(lit) == 1 and isinstance(lit[0], int):
+                    return [st] if _add_facts(st.facts, [("eq", d, ("const", lit[0]))]) else []
+                if lit[0] == "not" and len(lit) == 2:
+                    return [st] if _add_facts(st.facts, [("ne", d, ("const", lit[1]))]) else []
+                st.facts.append(("switch", d, lit))
+                return [st]
         if d[0] == "const" and isinstance(d[1], bool) and tv is not None:
             return [st] if d[1] == tv else []
         if d[0] == "const" and isinstance(d[1], int) and not isinstance(d[1], bool):
@@ -498,7 +512,19 @@ class Paths:
             return None
         return [self._rebind(s, r) for s in self.of(g, depth + 1)]
 
-    def _rebind(self, s, r):
+    def _rebind(self, s, r0):
+        # calls inside the callee that take `&mut` are distinct events of *this* invocation: tag them with it, so that
+        # two invocations of the same helper do not produce "the same" call
+        self._inst = getattr(self, "_inst", 0) + 1
+        inst = "#%d" % self._inst
+
+        def r(n):
+            v = r0(n)
+            if v is not None:
+                return v
+            if n[0] == "call" and len(n) == 5 and isinstance(n[4], str) and n[4].startswith("@"):
+                return n[:4] + (n[4] + inst,)
+            return None
         f = lambda t: _simplify(self.canon.tree(_norm_calls(subst(t, r))))
         facts = []
         for x in s.facts:
